@@ -62,6 +62,10 @@ CLAIMED['C08'] = dict(engine='E5', technique='Coq proof about a hand model of th
     text='Partial. Proved: _new_id returns the lowest free id (never one in use); any number of _resolve_use passes, and splitting a stroked shape, keep ids unique; _remove_orphaned_gradients keeps exactly the gradients some fill resolves to (none unused, none referenced removed); a normal return has unique ids (gate). The composition inside topicosvg (which references exist when each step runs) is decided on every run by tools/pico.check_refs on generated documents. One fix commit (gradient orphaned by an invisible sole user).',
     note='Refs.v validated on 900/15000 cases over five mechanisms; judge covers 300/6000 documents with shared ids.',
     design='§7 C08')
+CLAIMED['C07'] = dict(engine='E3', technique='Coq proof that a document in pico form is a fixed point of the individual rewriting steps (path rewrites over R via the generated walk callbacks, rounding, group decision, orphan removal), models tied to the code by differential runs; byte-level three-pass judge on generated documents x ndigits on every run',
+    text='Partial. Proved: explicit_lines, expand_shorthand, absolute and round_floats are the identity on absolute M/L/C/Q/A/Z paths rounded to nd <= 8 digits (absolute because rounded positions cannot be near misses of the subpath start); rounding is idempotent; a kept group (opacity in (0,1), >= 2 children) is kept unchanged; orphan removal is idempotent. Not proved: gradient rewriting, float printing under re-parse, step order - decided by the three-pass byte comparison and checkpicosvg on every run. Two fix commits (underfull groups, orphaned gradients); one recorded finding (defs order).',
+    note='Theorems over exact reals; judge covers 220/5000 documents x ndigits 0..6, three passes each.',
+    design='§7 C07')
 PENDING = {}
 
 def main():
